@@ -40,7 +40,7 @@ Proof.
     rewrite app_nil_r. reflexivity.
   - simpl. unfold step in H.
     destruct (front (sf st) (l_from a) (l_frame a)) as [[f' acts]|]; [|inversion H; subst; discriminate].
-    destruct (bsteps (sb st) (l_order a) acts) as [b' evs].
+    destruct (bsteps (f_tab f') (sb st) (l_order a) acts) as [b' evs].
     destruct (run (mkS f' b') t) as [st2 r] eqn:R. inversion H; subst. simpl in Hl.
     rewrite <- app_assoc. f_equal. apply (IH (mkS f' b') _ _ l R). lia.
 Qed.
@@ -271,4 +271,28 @@ Proof.
     all: try (destruct (N.eqb s s0); simpl; lia).
     all: try (destruct (N.eqb s1 0); reflexivity).
     all: try (destruct s0; [discriminate|reflexivity]).
+Qed.
+
+Lemma f_tab_set_cont f y c x : f_tab (set_cont f y c) x = f_tab f x.
+Proof. destruct y, x; reflexivity. Qed.
+
+Lemma front_tab f y fr f' acts :
+  front f y fr = Some (f', acts) ->
+  forall x, f_tab f' x = if side_eqb y x then set1 1 (f_tab f x) fr else f_tab f x.
+Proof.
+  unfold front. destruct (negb (frame_ok (f_cont f y) fr)); [discriminate|].
+  intros H x.
+  destruct fr as [s es d pad|s es eh pr fid e0|s eh|s p|s c|kv| |s eh pm fid|a d|l c d|s inc]; simpl.
+  - destruct (split_data _ _ s es d); [|discriminate]. inversion H; subst. destruct (side_eqb y x); reflexivity.
+  - destruct eh; inversion H; subst; rewrite ?f_tab_set_cont; destruct (side_eqb y x); reflexivity.
+  - destruct (f_cont f y); [|discriminate]. destruct eh; inversion H; subst; rewrite ?f_tab_set_cont;
+      destruct (side_eqb y x); reflexivity.
+  - inversion H; subst. destruct (side_eqb y x); reflexivity.
+  - inversion H; subst. destruct (side_eqb y x); reflexivity.
+  - inversion H; subst. unfold settings_tab. destruct y, x; reflexivity.
+  - inversion H; subst. destruct (side_eqb y x); reflexivity.
+  - destruct eh; inversion H; subst; destruct (side_eqb y x); reflexivity.
+  - inversion H; subst. destruct (side_eqb y x); reflexivity.
+  - inversion H; subst. destruct (side_eqb y x); reflexivity.
+  - inversion H; subst. destruct (side_eqb y x); reflexivity.
 Qed.
